@@ -23,13 +23,13 @@ pub enum AStep {
     Sleep { d: u64 },
     /// relative to the start of the incarnation
     SleepUntil { at: u64 },
-    /// inner: 0 = sleep(d2), 1 = ready, 2 = never
-    Timeout { d: u64, inner: u8, d2: u64 },
+    /// inner: 0 = sleep(d2), 1 = ready, 2 = never; `at` = use timeout_at(now + d, ..)
+    Timeout { d: u64, inner: u8, d2: u64, #[serde(default)] at: bool },
     Select { ds: Vec<u64> },
     /// pinned sleep(d0), optionally polled once, then reset to now + d1 and awaited
     Reset { d0: u64, d1: u64, poll_first: bool },
-    /// behaviour: 0 burst, 1 delay, 2 skip; after each tick the task sleeps `work`
-    Interval { period: u64, behaviour: u8, ticks: u8, work: u64 },
+    /// behaviour: 0 burst, 1 delay, 2 skip; after each tick the task sleeps `work`; `off` > 0 = interval_at(now + off, ..)
+    Interval { period: u64, behaviour: u8, ticks: u8, work: u64, #[serde(default)] off: u64 },
     /// wake task `to` of the same module
     Notify { to: u16 },
     /// wait for one notification
@@ -150,12 +150,21 @@ async fn run_task(m: usize, ti: usize, inc: u16, start_ns: u64, spec: TaskSpec, 
                 sleep_until(SimTime::from_duration(Duration::from_nanos(start_ns + at))).await;
                 log(si, T_DONE, 0);
             }
-            AStep::Timeout { d, inner, d2 } => {
+            AStep::Timeout { d, inner, d2, at } => {
                 let dur = Duration::from_nanos(*d);
-                let ok = match inner % 3 {
-                    0 => timeout(dur, sleep(Duration::from_nanos(*d2))).await.is_ok(),
-                    1 => timeout(dur, std::future::ready(())).await.is_ok(),
-                    _ => timeout(dur, std::future::pending::<()>()).await.is_ok(),
+                let ok = if *at {
+                    let dl = SimTime::now() + dur;
+                    match inner % 3 {
+                        0 => des::time::timeout_at(dl, sleep(Duration::from_nanos(*d2))).await.is_ok(),
+                        1 => des::time::timeout_at(dl, std::future::ready(())).await.is_ok(),
+                        _ => des::time::timeout_at(dl, std::future::pending::<()>()).await.is_ok(),
+                    }
+                } else {
+                    match inner % 3 {
+                        0 => timeout(dur, sleep(Duration::from_nanos(*d2))).await.is_ok(),
+                        1 => timeout(dur, std::future::ready(())).await.is_ok(),
+                        _ => timeout(dur, std::future::pending::<()>()).await.is_ok(),
+                    }
                 };
                 log(si, if ok { T_OK } else { T_ELAPSED }, 0);
             }
@@ -193,8 +202,12 @@ async fn run_task(m: usize, ti: usize, inc: u16, start_ns: u64, spec: TaskSpec, 
                 s.await;
                 log(si, T_DONE, 0);
             }
-            AStep::Interval { period, behaviour, ticks, work } => {
-                let mut iv = interval(Duration::from_nanos((*period).max(1)));
+            AStep::Interval { period, behaviour, ticks, work, off } => {
+                let mut iv = if *off > 0 {
+                    des::time::interval_at(SimTime::now() + Duration::from_nanos(*off), Duration::from_nanos((*period).max(1)))
+                } else {
+                    interval(Duration::from_nanos((*period).max(1)))
+                };
                 iv.set_missed_tick_behavior(match behaviour % 3 {
                     0 => MissedTickBehavior::Burst,
                     1 => MissedTickBehavior::Delay,
@@ -390,7 +403,7 @@ pub fn evaluate(tasks: &[TaskSpec], start: u64, ext: &[(u64, usize)]) -> Vec<Exp
                                 s.pc += 1;
                             }
                         }
-                        AStep::Timeout { d, inner, d2 } => {
+                        AStep::Timeout { d, inner, d2, .. } => {
                             // inner result iff the inner future completes no later than the deadline
                             let (dt, code) = match inner % 3 {
                                 0 => {
@@ -435,11 +448,11 @@ pub fn evaluate(tasks: &[TaskSpec], start: u64, ext: &[(u64, usize)]) -> Vec<Exp
                                 s.pc += 1;
                             }
                         }
-                        AStep::Interval { period, behaviour, ticks, work } => {
+                        AStep::Interval { period, behaviour, ticks, work, off } => {
                             let period = period.max(1);
                             // sub: 0 = not created; 1 + 2k = waiting for tick k; 2 + 2k = working after tick k
                             if s.sub == 0 {
-                                s.iv_deadline = now; // created now: the first tick is due immediately
+                                s.iv_deadline = now + off; // created now: the first tick is due immediately (or at now + off)
                                 s.sub = 1;
                             }
                             let k = (s.sub - 1) / 2;
@@ -703,7 +716,7 @@ fn gen_timer_step(rng: &mut Rng) -> AStep {
         }
         0 | 1 => AStep::Sleep { d: d(rng) },
         2 => AStep::SleepUntil { at: d(rng) * rng.below(4) },
-        3 | 4 => AStep::Timeout { d: d(rng), inner: rng.below(3) as u8, d2: d(rng) },
+        3 | 4 => AStep::Timeout { d: d(rng), inner: rng.below(3) as u8, d2: d(rng), at: rng.chance(1, 3) },
         5 | 6 => {
             let n = 2 + rng.below(2) as usize;
             let base = d(rng);
@@ -720,7 +733,7 @@ fn gen_timer_step(rng: &mut Rng) -> AStep {
                 4 => period + period / 2, // late by half a period
                 _ => 3 * period + 10 * MS,
             };
-            AStep::Interval { period, behaviour: rng.below(3) as u8, ticks: 1 + rng.below(5) as u8, work }
+            AStep::Interval { period, behaviour: rng.below(3) as u8, ticks: 1 + rng.below(5) as u8, work, off: if rng.chance(1, 3) { 10 * MS * (1 + rng.below(7)) } else { 0 } }
         }
     }
 }
@@ -875,7 +888,7 @@ pub fn gen_tasks_c09(rng: &mut Rng) -> Vec<TaskSpec> {
         let ns = 2 + rng.small(8) as usize;
         let mut steps: Vec<AStep> = (0..ns)
             .map(|_| match rng.below(4) {
-                0 => AStep::Interval { period: 100 * MS * (1 + rng.below(3)), behaviour: 0, ticks: 2 + rng.below(4) as u8, work: 0 },
+                0 => AStep::Interval { period: 100 * MS * (1 + rng.below(3)), behaviour: 0, ticks: 2 + rng.below(4) as u8, work: 0, off: 0 },
                 _ => AStep::Sleep { d: 250 * MS * (1 + rng.below(4)) },
             })
             .collect();
@@ -913,7 +926,7 @@ pub fn gen_tasks_c20(rng: &mut Rng) -> Vec<TaskSpec> {
         let steps = match rng.below(4) {
             0 => vec![AStep::Sleep { d: 100_000 * MS }],           // blocked on a timer when the run stops
             1 => vec![AStep::Wait],                                // blocked on a receive forever
-            2 => vec![AStep::Sleep { d: 300 * MS }, AStep::Timeout { d: 50_000 * MS, inner: 2, d2: 0 }],
+            2 => vec![AStep::Sleep { d: 300 * MS }, AStep::Timeout { d: 50_000 * MS, inner: 2, d2: 0, at: false }],
             _ => (0..1 + rng.small(4)).map(|_| AStep::Sleep { d: 200 * MS }).collect(),
         };
         v.push(TaskSpec { local: rng.chance(1, 3), join: 0, steps });
